@@ -120,37 +120,51 @@ def run_group(g, workroot, extra_defines=(), want_trace=False, only_property=Non
             res["detail"] = "goto-instrument: contract missing: " + gi_out[-1500:]
             return res
         checks = list(BASE_CHECKS if g.checks is None else g.checks)
-        cb = ["cbmc", b] + checks + list(g.flags)
-        if g.unwind is not None:
-            cb += ["--unwind", str(g.unwind), "--unwinding-assertions"]
-        if g.unwindset:
-            cb += ["--unwindset", g.unwindset, "--unwinding-assertions"]
-        if g.object_bits:
-            cb += ["--object-bits", str(g.object_bits)]
-        if g.backend == "cvc5":
-            cb += ["--cvc5"]
-        elif g.backend == "z3":
-            cb += ["--z3"]
-        elif g.backend not in ("sat", None):
-            cb += ["--sat-solver", g.backend]
-        if want_trace:
-            cb += ["--trace"]
-        if only_property:
-            cb += ["--property", only_property]
-        cb += ["--json-ui"]
-        res["cmd"] = " ".join(cmd[:3] + ["…", os.path.relpath(src, VERIF) if src.startswith(VERIF) else src]) + \
-            " && " + " ".join(gi[:-2]) + " && " + " ".join(x for x in cb if x != b)
+        # DFCC allocates tables of 2^object_bits entries: memory grows steeply with --object-bits, so start
+        # small and escalate only when cbmc reports "too many addressed objects"
+        ob = g.object_bits or 8
         outp = os.path.join(wd, "out.json")
-        rc, so, se, ts = _run(cb, g.timeout, g.mem_gb, wd, out=outp)
-        res["solver_s"] = round(ts, 2)
-        if rc is None:
-            res["detail"] = "cbmc timeout after %ds" % g.timeout
-            return res
+        while True:
+            cb = ["cbmc", b] + checks + list(g.flags)
+            if g.unwind is not None:
+                cb += ["--unwind", str(g.unwind), "--unwinding-assertions"]
+            if g.unwindset:
+                cb += ["--unwindset", g.unwindset, "--unwinding-assertions"]
+            cb += ["--object-bits", str(ob)]
+            if g.backend == "cvc5":
+                cb += ["--cvc5"]
+            elif g.backend == "z3":
+                cb += ["--z3"]
+            elif g.backend not in ("sat", None):
+                cb += ["--sat-solver", g.backend]
+            if want_trace:
+                cb += ["--trace"]
+            if only_property:
+                cb += ["--property", only_property]
+            cb += ["--json-ui"]
+            res["cmd"] = " ".join(cmd[:3] + ["…", os.path.relpath(src, VERIF) if src.startswith(VERIF) else src]) + \
+                " && " + " ".join(gi[:-2]) + " && " + " ".join(x for x in cb if x != b)
+            rc, so, se, ts = _run(cb, g.timeout, g.mem_gb, wd, out=outp)
+            res["solver_s"] = round(res["solver_s"] + ts, 2)
+            if rc is None:
+                res["detail"] = "cbmc timeout after %ds" % g.timeout
+                return res
+            try:
+                txt = open(outp, errors="replace").read()
+            except Exception:
+                txt = ""
+            if "too many addressed objects" in txt and ob < 16:
+                ob += 1
+                continue
+            break
+        res["object_bits"] = ob
         results, st, msgs = _parse_cbmc_json(outp)
         if results is None:
             tail = ""
             try:
-                tail = open(outp, errors="replace").read()[-1500:]
+                tail = open(outp, errors="replace").read()
+                errs = re.findall(r'"messageText": "([^"]*)",\s*"messageType": "ERROR"', tail)
+                tail = " | ".join(errs) if errs else tail[-600:]
             except Exception:
                 pass
             res["detail"] = "cbmc gave no result (rc=%s, likely out of memory or parse error): %s %s" % (
